@@ -241,6 +241,12 @@ func run(args map[string]string) {
 			case strings.HasPrefix(line, "E "):
 				parts := strings.Split(line, " | ")
 				out.Emit(line, decodeTOML(ctx, common.Unhex(parts[2])))
+			case strings.HasPrefix(line, "I "):
+				cs, im := dirCase(args["--cue"], args["--out"], n, parseDirSpec(line))
+				out.Emit(cs, im)
+			case strings.HasPrefix(line, "H "):
+				cs, im := histCase(args["--cue"], args["--out"], n, parseHistSpec(line))
+				out.Emit(cs, im)
 			case strings.HasPrefix(line, "C "):
 				cs, im := cliCase(args["--cue"], args["--out"], n, parseCliSpec(line))
 				out.Emit(cs, im)
@@ -329,6 +335,57 @@ func run(args map[string]string) {
 		id := i
 		jobs = append(jobs, func(ctx *cue.Context) [][2]string {
 			cs, im := cliCase(cueBin, work, id, c)
+			return [][2]string{{cs, im}}
+		})
+	}
+	// import by directory / pattern / no arguments, every encoding in one directory
+	ndir := common.Atoi(args["--ndir"], 0)
+	for i := 0; i < ndir; i++ {
+		g := &dgen{r: r}
+		c := dirSpec{form: []string{"dir", "pattern", "noargs"}[i%3]}
+		exts := []string{"json", "yaml", "toml", "yml"}
+		common.Shuffle(r, exts)
+		if r.Chance(1, 3) {
+			exts = exts[:2+r.Intn(2)]
+		}
+		if i < 3 {
+			exts = []string{"json", "yaml", "toml", "yml"} // every encoding under each form, on every run
+		}
+		for _, e := range exts {
+			c.fmts = append(c.fmts, e)
+			c.trees = append(c.trees, g.tree(2, true))
+		}
+		dist["cli/import-"+c.form]++
+		id := 500000 + i
+		jobs = append(jobs, func(ctx *cue.Context) [][2]string {
+			cs, im := dirCase(cueBin, work, id, c)
+			return [][2]string{{cs, im}}
+		})
+	}
+	// histories on one output file: export A, export B without and with --force
+	nhist := common.Atoi(args["--nhist"], 0)
+	for i := 0; i < nhist; i++ {
+		g := &dgen{r: r}
+		g.null = false
+		base := g.tree(3, true)
+		for len(base.Kids) < 2 {
+			base = g.tree(3, true)
+		}
+		c := histSpec{format: []string{"json", "yaml", "toml", "cue"}[i%4], mode: common.Pick(r, []string{"outfile", "outflag"})}
+		switch (i / 4) % 3 {
+		case 0: // B shorter than A
+			c.a, c.b = pad(base), shrink(base)
+			dist["cli/force-shorter"]++
+		case 1: // B longer than A
+			c.a, c.b = shrink(base), pad(base)
+			dist["cli/force-longer"]++
+		default: // same length
+			c.a, c.b = base, sameLen(base)
+			dist["cli/force-samelen"]++
+		}
+		id := 600000 + i
+		jobs = append(jobs, func(ctx *cue.Context) [][2]string {
+			cs, im := histCase(cueBin, work, id, c)
 			return [][2]string{{cs, im}}
 		})
 	}
